@@ -30,6 +30,9 @@ pub(super) mod clock {
     /// Arm reading `i` of the clock.
     pub fn set(i: usize, secs: u64, nanos: u32) {
         unsafe {
+            if i == 0 {
+                IDX = 0; // readings are counted from the moment the harness arms the clock
+            }
             S[i] = secs;
             N[i] = nanos;
         }
@@ -37,14 +40,19 @@ pub(super) mod clock {
     pub fn calls() -> usize {
         unsafe { IDX }
     }
-    /// Replacement for `SystemTime::now` (#[kani::stub]).
-    pub fn now_stub() -> SystemTime {
+    /// The next armed reading as (seconds, nanoseconds); advances the reading index.
+    pub fn next_raw() -> (u64, u32) {
         unsafe {
             let i = IDX;
             IDX += 1;
             let k = if i > 2 { 2 } else { i };
-            mk(S[k], N[k])
+            (S[k], N[k])
         }
+    }
+    /// Replacement for `SystemTime::now` (#[kani::stub]).
+    pub fn now_stub() -> SystemTime {
+        let (s, n) = next_raw();
+        mk(s, n)
     }
 }
 
